@@ -306,7 +306,10 @@ impl<'a> Compiler<'a> {
             }
         }
         let i = upvalues.len();
-        upvalues.push(Upvalue { is_local, index });
+        if upvalues.try_push(Upvalue { is_local, index }).is_err() {
+            // a closure can not capture more variables than its capture list holds
+            return Err(self.error(CompilationErrorPayload::TooManyLocals));
+        }
         Ok(i)
     }
 
